@@ -70,7 +70,8 @@ def parse_protos(text):
                 mm = re.match(r'^(.*?)(\**)\s*(\w+)$', p)
                 ty = re.sub(r'\bconst\b', '', mm.group(1)).strip()
                 params.append((ty, mm.group(3), bool(mm.group(2))))
-        sigs[m.group('name')] = {'ret': ret, 'params': params, 'throws': bool(m.group('throws')),
+        nxt = text[m.end():].lstrip()[:1]
+        sigs[m.group('name')] = {'ret': ret, 'params': params, 'throws': bool(m.group('throws')), 'has_contract': nxt not in (';', '{'),
                                  'proto': re.sub(r'^NIX_THROWS\s+', '', m.group(0).strip())}
     return sigs
 
@@ -105,6 +106,8 @@ def class_members(cls_file, cls):
         e += 1
     body = src[m.end():e]
     # depth-0 text only
+    # members of anonymous unions / structs are members of the class: splice their declarations in
+    body = re.sub(r'\b(?:union|struct)\s*\{([^{}]*)\}\s*;', lambda mm: mm.group(1), body)
     flat = []; d = 0
     for ch in body:
         if ch == '{': d += 1
@@ -202,7 +205,7 @@ def extract(unit, enums, sigs):
     ret_c = re.sub(r'^const\s+', '', ret_c)
     params = []
     cls = unit.get('cls')
-    if cls:
+    if cls and not unit.get('static_member'):
         params.append((cls, 'self', True, is_const_member))
         ctx.env['self'] = (cls, True)
     unit.setdefault('classes', [])
@@ -215,6 +218,9 @@ def extract(unit, enums, sigs):
             if t.t == '=':
                 a = a[:q]; break
         nm = a[-1]
+        if len([t for t in a if t.k == 'id' and t.t != 'const']) == 1 and nm.k == 'id':
+            # unnamed parameter (only a type): give it a name
+            a = a + [Tok('id', '_unnamed%d' % (len(params)), ' ')]; nm = a[-1]
         if nm.k != 'id':
             raise ExtractError('unnamed parameter in %s' % cname)
         ty = [t for t in a[:-1]]
